@@ -125,3 +125,13 @@ func init() {
 	reg(billCfg("C04", `^H_C04_`, []string{shape, "both rounding rules; fixed amounts with currency or currency+2 decimals; second calculation from the first one's heap with the tax summary kept or dropped"}, []string{shape + "; also JPY and BHD"},
 		[]string{"byte identity of encoding/json output, struct-tag driven (un)marshalling, schema.Object insertion, string normalisers and scenario notes (reflection / regexp over unbounded strings)", "amount codec losslessness is C06"}))
 }
+
+func init() {
+	shape := "invoice skeletons as in C03 (1..2 lines, optional discounts/charges/advances), all prices and amounts symbolic; EUR"
+	c17 := billCfg("C17", `^H_C17_Order`, []string{shape, "Invert twice; swap of the two lines; removal of included VAT; both rounding rules"}, []string{shape + "; also JPY and BHD"},
+		[]string{"permutations of more than two rows; discounts/charges with explicit bases and explicit-quantity rate charges; quick tier: line and document discounts only (charges, advances in thorough)"})
+	c17.Opaque = map[string]string{"(num.Amount).String": "<amount>"}
+	c17.Stubs = append(c17.Stubs, "num.Amount.String on a symbolic amount (only used to build the mismatch message of Invert): placeholder text", "cbc.NormalizeCode regexps: native regexp on concrete strings")
+	c17.Stages = append(c17.Stages, stage{Name: "negation-and-included-tax", Harness: `^H_C17_(Invert|RemoveIncluded)`, Subst: numSummaries, Needs: []string{"L0"}, ThoroughOnly: true, BudgetS: 100})
+	reg(c17)
+}
